@@ -310,3 +310,68 @@ def viol(res, key, clause, **kw):
     cnt[key] = cnt.get(key, 0) + 1
     if cnt[key] <= 3:
         res.violation(key, clause, **kw)
+
+
+def merge_results(res, sub):
+    """fold the Result of a worker process into the main Result"""
+    res.evaluations += sub.evaluations
+    res.distinct |= sub.distinct
+    res.traces_validated += sub.traces_validated
+    for table in ("branches", "sizes", "errors"):
+        d = getattr(res, table)
+        for k, v in getattr(sub, table).items():
+            d[k] = d.get(k, 0) + v
+    cnt = res.extra.setdefault("violation_counts", {})
+    for k, v in sub.extra.get("violation_counts", {}).items():
+        cnt[k] = cnt.get(k, 0) + v
+    have = {}
+    for v in res.violations:
+        have[v["key"]] = have.get(v["key"], 0) + 1
+    for v in sub.violations:
+        if have.get(v["key"], 0) < 3 and len(res.violations) < 50:
+            res.violations.append(v)
+            have[v["key"]] = have.get(v["key"], 0) + 1
+    for b in sub.exact_breaks:
+        if len(res.exact_breaks) < 50:
+            res.exact_breaks.append(b)
+    for s_ in sub.samples:
+        res.sample(s_)
+    res.extra["driver_lines_workers"] = res.extra.get("driver_lines_workers", 0) + sub.extra.get("driver_lines", 0)
+
+
+class RDriver:
+    """model-driver client that survives the death of the driver process (another check on the same machine may
+    `pkill -x driver`): the process is restarted and the batch re-sent, up to three times"""
+
+    def __init__(self):
+        from harness.common import Driver
+
+        self._mk = Driver
+        self.d = Driver()
+        self.n_prev = 0
+        self.restarts = 0
+
+    @property
+    def n_lines(self):
+        return self.n_prev + self.d.n_lines
+
+    def batch(self, lines):
+        for attempt in range(4):
+            try:
+                return self.d.batch(lines)
+            except RuntimeError:
+                if attempt == 3:
+                    raise
+                self.n_prev += self.d.n_lines
+                try:
+                    self.d.close()
+                except Exception:  # noqa: BLE001
+                    pass
+                self.d = self._mk()
+                self.restarts += 1
+
+    def ask(self, line):
+        return self.batch([line])[0]
+
+    def close(self):
+        self.d.close()
